@@ -17,7 +17,7 @@ RULE = ("a case = a simulated network of 1..4 hosts, each listening on 6445 or 2
         "field == datagram length, message type 92 00, valid keyed MD5, payload decrypting to the discovery request - compared with a "
         "private byte-exact copy of the probe real devices answer; broadcast only with SO_BROADCAST set) with a well-formed V2 or V3 "
         "reply built by the reference (48-bit id, port, serial number, name net_<type>_<suffix>, reported IP equal to or different from "
-        "the source). Oracle: Discover.discover()/discover_single() returns exactly one device per host with id, port, sn, name, type "
+        "the source); discover_single is called with the dotted address or with a host name that resolves to the host; name and trailer lengths cover every residue of the payload length modulo 16. Oracle: Discover.discover()/discover_single() returns exactly one device per host with id, port, sn, name, type "
         "(from the name), version as encoded and ip = the datagram's source address; class AirConditioner iff type 0xAC, else generic "
         "Device; with auto_connect a V2 air conditioner is refreshed over TCP at the advertised port. Exhaustive: all 256 type bytes in "
         "both hex cases, boundary ids and ports, both versions, both listening ports. distinct = (reply fields); all non-trivial")
@@ -67,7 +67,16 @@ def generate(ctx, rng):
         yield ("multi", j), {"mode": "broadcast", "auto": False, "hosts": hosts}
     for j in range(120 if quick else 2500):
         h = _host(rng, "10.3.0.%d" % (1 + j % 200))
-        yield ("single", j), {"mode": "single", "auto": False, "hosts": [h, _host(rng, "10.3.1.9")]}
+        yield ("single", j), {"mode": "single", "auto": False, "hosts": [h, _host(rng, "10.3.1.9")],
+                              "target": [None, "midea-ac.lan", "AC-Livingroom", None][j % 4]}
+    # name / trailer lengths covering every residue of the decrypted payload length modulo the cipher block
+    for nlen in range(0, 26):
+        for tail in (0, 1, 7, 16, 70):
+            for version in (2, 3):
+                n += 1
+                suffix = "".join(rng.choice("0123456789ABCDEF") for _ in range(nlen))
+                yield ("namelen", nlen, tail, version), {"mode": "broadcast", "auto": False,
+                      "hosts": [_host(rng, "10.6.0.%d" % (1 + n % 200), suffix=suffix, tail=rng.randbytes(tail), version=version)]}
     for j in range(80 if quick else 2000):
         h = _host(rng, "10.4.0.%d" % (1 + j % 200), version=2, type=rng.choice([0xAC, 0xAC, 0xA1]), port=rng.choice([6444, 7000]))
         yield ("auto", j), {"mode": rng.choice(["broadcast", "single"]), "auto": True, "hosts": [h]}
@@ -85,21 +94,22 @@ def run_case(ctx, case):
     net = H.new_net()
     sims = []
     tcp = {}
+    target = case.get("target")
     for i, h in enumerate(hosts):
         payload = D.build_payload(h["reported_ip"], h["port"], h["sn"].encode(), _name(h).encode(), bytes(h["tail"]))
         reply = D.build_reply(h["version"], h["id"], payload)
         replies = [(0.05 * (i + 1) + 0.3 * d, None, reply) for d in range(h["dups"])]
-        sims.append(SimHost(net, h["ip"], h["listen"], replies))
+        sims.append(SimHost(net, h["ip"], h["listen"], replies, names=([target] if (target and i == 0) else ())))
         if case["auto"]:
             tcp[h["ip"]] = SimDevice(net, host=h["ip"], port=h["port"], version=2, device_id=h["id"], ac=ACModel({"target_temperature": 26.5, "power": True}))
 
     async def go(loop):
         if case["mode"] == "single":
-            dev = await Discover.discover_single(hosts[0]["ip"], auto_connect=case["auto"])
+            dev = await Discover.discover_single(target or hosts[0]["ip"], auto_connect=case["auto"])
             return [dev] if dev is not None else []
         return await Discover.discover(auto_connect=case["auto"])
 
-    key = ("c17", case["mode"], case["auto"], tuple((h["ip"], h["version"], h["id"], h["port"], h["sn"], _name(h), h["listen"]) for h in hosts))
+    key = ("c17", case["mode"], case["auto"], case.get("target"), tuple((h["ip"], h["version"], h["id"], h["port"], h["sn"], _name(h), h["listen"]) for h in hosts))
     try:
         devs, loop = H.run_virtual(go, net)
     except Exception as e:  # noqa: BLE001
